@@ -4,6 +4,7 @@ C11 — status() is exact at rest and never nonsensical.
 Property theorems only; helper lemmas live in `Lemmas/`.
 -/
 import DeadpoolVerif.Lemmas.NoResize
+import DeadpoolVerif.Lemmas.GrowOnly
 import DeadpoolVerif.Lemmas.LinkStep
 
 namespace DeadpoolVerif
@@ -178,5 +179,16 @@ example : (run? (init C11_demo_cfg) C11_demo).isSome = true := by decide
 example : AtRest (run (init C11_demo_cfg) C11_demo) := by
   refine ⟨by decide, by decide, by decide⟩
 example : (run (init C11_demo_cfg) C11_demo).status = (1, 1, 0, 2) := by decide
+
+/-- **C11 (`size` exceeds `max_size` only as the residue of a shrink).** In every history
+without a shrink and without `close()` — grows and no-op resizes allowed — `size` never exceeds
+the current `max_size`, at any schedule point. -/
+theorem C11_size_le_max_without_shrink (cfg : Cfg) (acts : List Action)
+    (h : GrowOnly (init cfg) acts) :
+    (run (init cfg) acts).size ≤ (run (init cfg) acts).maxSize := by
+  have a := run_acct cfg acts
+  have d := run_debt_zero (init cfg) acts rfl h
+  have := a.size_le
+  omega
 
 end DeadpoolVerif
